@@ -16,6 +16,7 @@ import (
 	"go/constant"
 	"go/token"
 	"go/types"
+	"os"
 	"sort"
 	"strings"
 
@@ -129,10 +130,12 @@ const (
 )
 
 type Outcome struct {
-	Kind  ExitKind
-	Rets  []AV
-	St    uint64
-	Instr ssa.Instruction // the return / panic instruction (of the frame the outcome belongs to)
+	Kind ExitKind
+	Rets []AV
+	// RetsEmpty: for slice-typed results, whether the returned slice is known empty (True) / non-empty (False)
+	RetsEmpty []AV
+	St        uint64
+	Instr     ssa.Instruction // the return / panic instruction (of the frame the outcome belongs to)
 }
 
 func (o Outcome) key() string {
@@ -140,6 +143,9 @@ func (o Outcome) key() string {
 	fmt.Fprintf(&sb, "%d|%d|%p|", o.Kind, o.St, o.Instr)
 	for _, r := range o.Rets {
 		fmt.Fprintf(&sb, "%d:%d,", r.K, r.N)
+	}
+	for _, r := range o.RetsEmpty {
+		fmt.Fprintf(&sb, "e%d,", r.K)
 	}
 	return sb.String()
 }
@@ -321,10 +327,18 @@ type act struct {
 }
 
 func (x *Explorer) runFn(fr *Frame, st uint64, args []AV) []Outcome {
+	return x.runFnE(fr, st, args, nil)
+}
+
+// runFnE: runFn with, per argument, what is known about the emptiness of a slice argument.
+func (x *Explorer) runFnE(fr *Frame, st uint64, args, empties []AV) []Outcome {
 	var sb strings.Builder
 	fmt.Fprintf(&sb, "%s|%d|", fr.id, st)
 	for _, a := range args {
 		fmt.Fprintf(&sb, "%d:%d,", a.K, a.N)
+	}
+	for _, a := range empties {
+		fmt.Fprintf(&sb, "e%d,", a.K)
 	}
 	mk := sb.String()
 	if o, ok := x.memo[mk]; ok {
@@ -338,6 +352,9 @@ func (x *Explorer) runFn(fr *Frame, st uint64, args []AV) []Outcome {
 	for i, p := range fr.Fn.Params {
 		if i < len(args) && args[i].K != avUnknown {
 			e = e.set(x.key(p, 0), args[i])
+		}
+		if i < len(empties) && empties[i].K != avUnknown {
+			e = e.set(x.key(p, slotEmpty), empties[i])
 		}
 	}
 	a.block(fr.Fn.Blocks[0], nil, e, st)
@@ -454,6 +471,17 @@ func (a *act) instrs(b *ssa.BasicBlock, from int, e env, st uint64) {
 					// (generated getters keep their joined result: their nil-receiver branch is not a real path)
 					ne = ne.set(x.key(v, 7), Int(int64(br.ret.Block().Index)))
 				}
+				if len(br.empties) > 0 {
+					if len(br.empties) == 1 {
+						ne = ne.set(x.key(v, slotEmpty), br.empties[0])
+					} else if refs := v.Referrers(); refs != nil {
+						for _, rf := range *refs {
+							if ex, ok := rf.(*ssa.Extract); ok && ex.Index < len(br.empties) {
+								ne = ne.set(x.key(ex, slotEmpty), br.empties[ex.Index])
+							}
+						}
+					}
+				}
 				if bi, isBI := v.Call.Value.(*ssa.Builtin); isBI {
 					switch {
 					case bi.Name() == "append" && len(v.Call.Args) == 2:
@@ -508,11 +536,23 @@ func (a *act) instrs(b *ssa.BasicBlock, from int, e env, st uint64) {
 			}
 			return
 		case *ssa.Return:
-			var rets []AV
+			var rets, retsEmpty []AV
+			anyEmpty := false
 			for _, r := range v.Results {
 				rets = append(rets, a.eval(e, r))
+				em := Unknown
+				if _, isSlice := r.Type().Underlying().(*types.Slice); isSlice {
+					em = a.emptiness(e, r)
+				}
+				if em.K != avUnknown {
+					anyEmpty = true
+				}
+				retsEmpty = append(retsEmpty, em)
 			}
-			a.out(Outcome{Kind: ExitReturn, Rets: rets, St: st, Instr: in})
+			if !anyEmpty {
+				retsEmpty = nil
+			}
+			a.out(Outcome{Kind: ExitReturn, Rets: rets, RetsEmpty: retsEmpty, St: st, Instr: in})
 			return
 		case *ssa.Panic:
 			a.out(Outcome{Kind: ExitPanic, St: st, Instr: in})
@@ -523,8 +563,15 @@ func (a *act) instrs(b *ssa.BasicBlock, from int, e env, st uint64) {
 
 func (a *act) out(o Outcome) { a.outs[o.key()] = o }
 
+// callbackEnder: rules that keep per-iteration state are told when a callback that a walker invoked returns
+// normally — the end of one iteration of the walk, like the back edge of a loop over the collected list.
+type callbackEnder interface {
+	OnCallbackReturn(x *Explorer, cfr *Frame, st uint64) uint64
+}
+
 type callBranch struct {
 	vals     []AV
+	empties  []AV // per result: emptiness of a returned slice
 	st       uint64
 	panicked bool
 	ret      *ssa.Return // the callee's return this branch came out of (repository callees)
@@ -602,33 +649,53 @@ func (a *act) call(c *ssa.Call, e env, st uint64) []callBranch {
 		if cfr == nil {
 			cfr = x.TM.Enter(a.pfr(e), c, callee)
 		}
-		var args []AV
+		var args, empties []AV
+		anyEmpty := false
 		if cc.IsInvoke() {
 			args = append(args, a.eval(e, cc.Value))
+			empties = append(empties, Unknown)
 		}
 		for _, av := range cc.Args {
 			args = append(args, a.eval(e, av))
+			em := Unknown
+			if _, isSlice := av.Type().Underlying().(*types.Slice); isSlice {
+				em = a.emptiness(e, av)
+			}
+			if em.K != avUnknown {
+				anyEmpty = true
+			}
+			empties = append(empties, em)
 		}
-		outs := x.runFn(cfr, st, args)
+		if !anyEmpty {
+			empties = nil
+		}
+		outs := x.runFnE(cfr, st, args, empties)
 		var res []callBranch
 		for _, o := range outs {
 			if o.Kind == ExitPanic {
 				res = append(res, callBranch{st: o.St, panicked: true})
 			} else {
 				rt, _ := o.Instr.(*ssa.Return)
-				res = append(res, callBranch{vals: o.Rets, st: o.St, ret: rt})
+				res = append(res, callBranch{vals: o.Rets, empties: o.RetsEmpty, st: o.St, ret: rt})
 			}
 		}
 		return res
 	}
 	// dependency call: callbacks passed to it run zero or more times
 	states := map[uint64]bool{st: true}
+	// failed: states in which a callback returned a certainly non-nil error — a walker that is handed an error by its
+	// callback stops and returns it, so the call itself fails in those states
+	failed := map[uint64]bool{}
+	panicked := map[uint64]bool{}
+	callErr := cc.Signature().Results().Len() > 0 && isErrorType(cc.Signature().Results().At(cc.Signature().Results().Len()-1).Type())
 	if !pureHigherOrder(callKey(cc)) {
 		for _, av := range cc.Args {
 			fn, mc, at := x.resolveFunc(a.fr, av)
 			if fn == nil || fn.Blocks == nil || !x.W.isRepoPkg(pkgOf(fn)) {
 				continue
 			}
+			cbRes := fn.Signature.Results()
+			cbErr := callErr && cbRes.Len() > 0 && isErrorType(cbRes.At(cbRes.Len()-1).Type())
 			work := []uint64{st}
 			for len(work) > 0 {
 				s := work[0]
@@ -641,6 +708,20 @@ func (a *act) call(c *ssa.Call, e env, st uint64) []callBranch {
 					cfr.ArgVals = nil
 				}
 				for _, o := range x.runFn(cfr, s, nil) {
+					if os.Getenv("VERIF_DEBUG") == "cb" {
+						fmt.Fprintf(os.Stderr, "CB %s st=%d->%d rets=%v cbErr=%v\n", fn, s, o.St, o.Rets, cbErr)
+					}
+					if o.Kind == ExitPanic {
+						panicked[o.St] = true // a panic in the callback is a panic of the call
+						continue
+					}
+					if cbErr && o.Kind == ExitReturn && len(o.Rets) == cbRes.Len() && o.Rets[len(o.Rets)-1].K == avNonNil {
+						failed[o.St] = true
+						continue
+					}
+					if ce, ok := x.Rule.(callbackEnder); ok {
+						o.St = ce.OnCallbackReturn(x, cfr, o.St)
+					}
 					if !states[o.St] {
 						states[o.St] = true
 						work = append(work, o.St)
@@ -669,6 +750,25 @@ func (a *act) call(c *ssa.Call, e env, st uint64) []callBranch {
 	var res []callBranch
 	for _, s := range keys {
 		res = append(res, callBranch{vals: vals, st: s})
+	}
+	var fkeys []uint64
+	for s := range failed {
+		fkeys = append(fkeys, s)
+	}
+	sort.Slice(fkeys, func(i, j int) bool { return fkeys[i] < fkeys[j] })
+	for _, s := range fkeys {
+		fv := make([]AV, nres)
+		copy(fv, vals)
+		fv[nres-1] = NonNil
+		res = append(res, callBranch{vals: fv, st: s})
+	}
+	var pkeys []uint64
+	for s := range panicked {
+		pkeys = append(pkeys, s)
+	}
+	sort.Slice(pkeys, func(i, j int) bool { return pkeys[i] < pkeys[j] })
+	for _, s := range pkeys {
+		res = append(res, callBranch{st: s, panicked: true})
 	}
 	return res
 }
